@@ -1528,6 +1528,15 @@ impl Linearizer {
         if self.domain.contains_key(&name) {
             return Err(LinearizationError::VarAlreadyDeclared(name));
         }
+        // a bound computed as the negation of 0 is -0.0: declare it as plain 0, `Real(-0, 3)`
+        // would not be rendered back to the same text once it has been compiled again
+        let as_type = match as_type {
+            VariableType::Real(min, max) => VariableType::Real(min + 0.0, max + 0.0),
+            VariableType::NonNegativeReal(min, max) => {
+                VariableType::NonNegativeReal(min + 0.0, max + 0.0)
+            }
+            VariableType::Boolean | VariableType::IntegerRange(_, _) => as_type,
+        };
         self.bounds.insert_variable(name.clone(), &as_type);
         let mut var = DomainVariable::new(as_type, InputSpan::default());
         var.increment_usage();
